@@ -27,7 +27,7 @@ Inductive item :=
 | Qm                (* unquoted ?  *)
 | Tok (s : string). (* any other token, quotes removed *)
 
-Definition pyval := option string. (* Some s = a str, None = Python None *)
+Notation pyval := (option string) (only parsing). (* Some s = a str, None = Python None *)
 
 Record mvconv := { mv_dot : pyval; mv_qm : pyval }.
 (* mmcif_pdbx 2.1.0 (installed): '.' -> "", '?' -> None  (pdbx/reader.py) *)
@@ -373,6 +373,16 @@ Definition primary (f : fields) : kind * Z * string * string * string * string *
   (f_kind f, f_serial f, f_name f, f_alt f, f_resname f, f_chain f, f_resseq f, f_ins f,
    f_x f, f_y f, f_z f).
 
+Definition kind_eqb (a b : kind) : bool :=
+  match a, b with KATOM, KATOM | KHETATM, KHETATM => true | _, _ => false end.
+
+Definition primary_eqb (f g : fields) : bool :=
+  kind_eqb (f_kind f) (f_kind g) && (f_serial f =? f_serial g)%Z
+  && String.eqb (f_name f) (f_name g) && String.eqb (f_alt f) (f_alt g)
+  && String.eqb (f_resname f) (f_resname g) && String.eqb (f_chain f) (f_chain g)
+  && (f_resseq f =? f_resseq g)%Z && String.eqb (f_ins f) (f_ins g)
+  && String.eqb (f_x f) (f_x g) && String.eqb (f_y f) (f_y g) && String.eqb (f_z f) (f_z g).
+
 (* ---- guards (decidable) ------------------------------------------------- *)
 
 Definition noblank (s : string) : bool := negb (any_char is_ws s).
@@ -409,7 +419,9 @@ Definition expressible (r : row) : bool :=
 
 (* the refuted classes, one predicate each *)
 Definition c_altloc (r : row) : bool := negb (missing (label_alt_id r)).
+(* no alternate location, but the library does not hand the code the "." it tests for *)
 Definition c_alt_unrecognised (mv : mvconv) (r : row) : bool :=
+  missing (label_alt_id r) &&
   match get mv (label_alt_id r) with Ok v => negb (eq_lit v ".") | Err _ => true end.
 Definition c_name4 (r : row) : bool := negb (tokp (okv 1 3) (auth_atom_id r)).
 Definition c_inscode (r : row) : bool := negb (missing (pdbx_PDB_ins_code r)).
@@ -471,3 +483,40 @@ Definition show_spec (r : row) : string :=
                   | Err e => exn_name e
                   end
   end.
+
+(* ---- the property on one row, as a decidable statement -------------------- *)
+
+(* both readers succeed and give the same atom (the fields the property names) *)
+Definition agrees (mv : mvconv) (r : row) : Prop :=
+  exists k l f fs,
+    spec_kind r = Some k /\ row_fields mv r = Ok (Some (l, f)) /\
+    parse_atom k (pdb_line_of_row r) = Ok fs /\ primary f = primary fs.
+
+Definition agreesb (mv : mvconv) (r : row) : bool :=
+  match spec_kind r with
+  | None => false
+  | Some k =>
+      match row_fields mv r, parse_atom k (pdb_line_of_row r) with
+      | Ok (Some (_, f)), Ok fs => primary_eqb f fs
+      | _, _ => false
+      end
+  end.
+
+Definition classes (mv : mvconv) (r : row) : list bool :=
+  [c_altloc r; c_alt_unrecognised mv r; c_name4 r; c_inscode r; c_wide r; c_label_ne_auth r].
+
+(* ---- witness rows of the refuted classes (replayed on the real code by the harness) *)
+
+Definition mk (g id ts nm : string) (alt : item) (comp asym : string) (ins : item)
+  (x y z occ b : string) (chg : item) (seq acomp aasym anm : string) : row :=
+  mkrow (Tok g) (Tok id) (Tok ts) (Tok nm) alt (Tok comp) (Tok asym) ins (Tok x) (Tok y) (Tok z)
+        (Tok occ) (Tok b) chg (Tok seq) (Tok acomp) (Tok aasym) (Tok anm) (Tok "1").
+
+Definition w_plain := mk "ATOM" "7" "C" "CA" Dot "LYS" "A" Qm "-10.123" "16.581" "2.104" "1.00" "20.55" Qm "12" "LYS" "A" "CA".
+Definition w_alt   := mk "ATOM" "7" "C" "CA" (Tok "A") "LYS" "A" Qm "-10.123" "16.581" "2.104" "0.50" "20.55" Qm "12" "LYS" "A" "CA".
+Definition w_name4 := mk "ATOM" "7" "H" "HD21" Dot "ASN" "A" Qm "-10.123" "16.581" "2.104" "1.00" "20.55" Qm "12" "ASN" "A" "HD21".
+Definition w_ins   := mk "ATOM" "7" "C" "CA" Dot "LYS" "A" (Tok "B") "-10.123" "16.581" "2.104" "1.00" "20.55" Qm "12" "LYS" "A" "CA".
+Definition w_wide  := mk "ATOM" "7" "C" "CA" Dot "LYS" "A" Qm "-100.123" "16.581" "2.104" "1.00" "20.55" Qm "12" "LYS" "A" "CA".
+Definition w_occ   := mk "ATOM" "7" "C" "CA" Dot "LYS" "A" Qm "-10.123" "16.581" "2.104" "1.0000" "20.55" Qm "12" "LYS" "A" "CA".
+Definition w_label := mk "HETATM" "478" "O" "O" Dot "HOH" "B" Qm "31.221" "16.581" "2.104" "1.00" "20.55" Qm "62" "HOH" "A" "O".
+Definition w_charge := mk "ATOM" "7" "N" "NZ" Dot "LYS" "A" Qm "-10.123" "16.581" "2.104" "1.00" "20.55" (Tok "1") "12" "LYS" "A" "NZ".
